@@ -97,15 +97,26 @@ func errResultNil(r *ssa.Return) bool {
 func mapLookupOn(v ssa.Value, m ssa.Value) *ssa.Lookup {
 	switch x := v.(type) {
 	case *ssa.Lookup:
-		if x.X == m {
+		if sameOrLoaded(x.X, m) {
 			return x
 		}
 	case *ssa.Extract:
-		if lk, ok := x.Tuple.(*ssa.Lookup); ok && lk.X == m {
+		if lk, ok := x.Tuple.(*ssa.Lookup); ok && sameOrLoaded(lk.X, m) {
 			return lk
 		}
 	}
 	return nil
+}
+
+// sameOrLoaded: v is target, or the value loaded from target (a captured variable is a pointer in the closure).
+func sameOrLoaded(v, target ssa.Value) bool {
+	if v == target {
+		return true
+	}
+	if u, ok := v.(*ssa.UnOp); ok && u.Op == token.MUL && u.X == target {
+		return true
+	}
+	return false
 }
 
 // cmpZero: cond compares v with the integer constant k; returned as the relation `v op k` with the
